@@ -1,4 +1,5 @@
 import DigModel.Proofs.Group
+import DigModel.Proofs.GroupCalled
 /-
   C10 — Value groups deliver every visible member exactly once (undecorated hard groups), and
   C11's counterpart for soft groups lives in Props/C11.lean; both rest on `buildGroup_undecorated`.
@@ -10,8 +11,9 @@ import DigModel.Proofs.Group
     on the path from the consuming scope to the root, of the members committed to those scopes' group
     stores when the feeders have been called — nothing from sibling or descendant scopes, other group
     names or other element types can occur (they live under other scopes / other keys);
-  * `C10_feeders_called_from_origin`: every provider of the key on that path is called (from its own origin
-    scope) before the slice is assembled, unless one of them fails, in which case the parameter fails with
+  * `C10_feeders_built`: when the parameter is delivered, every provider of the key registered in a scope on that
+    path has been built (`called`) — none is skipped — so the stores read by `C10_members` hold the members of
+    all of them; `C10_failure_is_group_failure`: if one of them fails, the parameter fails with
     `errParamGroupFailed` wrapping that failure.
   "Exactly once however often requested" is C02_once (a built feeder is never executed again) together
   with the fact that committing happens only in a successful execution (C07_failed_writes_nothing).
@@ -29,6 +31,21 @@ theorem C10_members (ctx : Ctx) (fuel : Nat) (k : Key) (c : Nat) (st : St)
   · injection h with e1 e2; injection e1 with e1; subst e2; exact e1.symm
   · injection h with e1 _; cases e1
 
+theorem C10_feeders_built (ctx : Ctx) (L L' fuel : Nat) (k : Key) (c : Nat) (st : St) (hv : VL L L' st)
+    (hd : ∀ s ∈ st.ancestors c, aget (st.scope s).decorators k = none)
+    (hg : ∀ s ∈ st.ancestors c, aget (st.scope s).decoratedGroups k = none)
+    (v : Val) (st' : St) (h : buildGroup ctx (fuel + 1) k false c st = (.ok v, st')) :
+    ∀ s ∈ st.ancestors c, ∀ n ∈ agetL (st.scope s).providers k, (st'.ctor n).called = true := by
+  rw [buildGroup_undecorated ctx fuel k false c st hd hg] at h
+  simp only [EM.bind, Bool.false_eq_true, if_false] at h
+  split at h
+  · rename_i u st5 hloop
+    injection h with _ e2
+    subst e2
+    cases u
+    exact groupProviders_called ctx L L' fuel k _ st st5 hv hloop
+  · injection h with e1 _; cases e1
+
 theorem C10_failure_is_group_failure (ctx : Ctx) (fuel : Nat) (k : Key) (n : Nat) (st : St) (e : DErr) (s' : St)
     (h : callCtor ctx fuel n (st.ctor n).origS st = (.error (.err e), s')) :
     EM.wrapErr (callCtor ctx fuel n (st.ctor n).origS) (.paramGroup k (ctorId ctx.sameIds (st.ctor n).fn)) st =
@@ -36,5 +53,6 @@ theorem C10_failure_is_group_failure (ctx : Ctx) (fuel : Nat) (k : Key) (n : Nat
   simp [EM.wrapErr, h]
 
 #print axioms C10_members
+#print axioms C10_feeders_built
 #print axioms C10_failure_is_group_failure
 end Dig.C10
